@@ -46,11 +46,14 @@ def asciiClass : DigitClass := fun c =>
 
 def digitChar (d : Nat) : Char := Char.ofNat (48 + d)
 
-/-- `str(n)` for a natural number. -/
-def natDigits (n : Nat) : List Char :=
-  if n < 10 then [digitChar n] else natDigits (n / 10) ++ [digitChar (n % 10)]
-termination_by n
-decreasing_by omega
+/-- `str(n)` for a natural number (structural recursion on a fuel argument, so that the kernel
+can evaluate it; `natDigits_eq` in PgProofs gives the fuel-free equation). -/
+def natDigitsAux : Nat → Nat → List Char
+  | 0, _ => []
+  | fuel + 1, n =>
+    if n < 10 then [digitChar n] else natDigitsAux fuel (n / 10) ++ [digitChar (n % 10)]
+
+def natDigits (n : Nat) : List Char := natDigitsAux (n + 1) n
 
 /-- `str(z)` for an `int`. -/
 def intStr (z : Int) : List Char :=
@@ -68,8 +71,8 @@ def digitsVal (dc : DigitClass) (s : List Char) : Option Nat := digitsValAux dc 
 
 /-- `s.lstrip('-')`. -/
 def lstripDash : List Char → List Char
-  | '-' :: cs => lstripDash cs
-  | cs => cs
+  | [] => []
+  | c :: cs => if c = '-' then lstripDash cs else c :: cs
 
 /-- `s.isdigit()`: non-empty and every character is a digit. -/
 def isDigitStr (dc : DigitClass) (s : List Char) : Bool :=
@@ -78,9 +81,11 @@ def isDigitStr (dc : DigitClass) (s : List Char) : Bool :=
 /-- `int(s)` for a string with `s.lstrip('-').isdigit()`: at most one sign, decimal digits only
 (`none` = ValueError, e.g. `'--5'`, `'²'`). -/
 def pyInt (dc : DigitClass) : List Char → Option Int
-  | '-' :: '-' :: _ => none
-  | '-' :: rest => (digitsVal dc rest).map (fun n => -(Int.ofNat n))
-  | s => (digitsVal dc s).map Int.ofNat
+  | [] => none
+  | c :: rest =>
+    if c = '-' then
+      (if rest.head? = some '-' then none else (digitsVal dc rest).map (fun n => -(Int.ofNat n)))
+    else (digitsVal dc (c :: rest)).map Int.ofNat
 
 /-! ### `KeyPath.parse` -/
 
@@ -316,5 +321,12 @@ def erase : List (Key × α) → Key → List (Key × α)
   | (k', v') :: rest, k => if k' = k then rest else (k', v') :: erase rest k
 
 end Assoc
+
+instance {ε α : Type} [DecidableEq ε] [DecidableEq α] : DecidableEq (Except ε α) := fun a b =>
+  match a, b with
+  | .ok x, .ok y => if h : x = y then isTrue (by rw [h]) else isFalse (fun e => by cases e; exact h rfl)
+  | .error x, .error y => if h : x = y then isTrue (by rw [h]) else isFalse (fun e => by cases e; exact h rfl)
+  | .ok _, .error _ => isFalse (fun e => by cases e)
+  | .error _, .ok _ => isFalse (fun e => by cases e)
 
 end Pg.C10
